@@ -100,12 +100,17 @@ def alloc_case(draw, allow_fixed=True, allow_empty=True, sliver=None, max_leaves
         cells[0]["a"] = {"M0": 0.5}
         cells[0]["fixed"] = False
     form = "api" if any(c["fixed"] for c in cells) else draw(st.sampled_from(["api", "tree", "text"]))
+    if any(c["fixed"] for c in cells) and draw(st.booleans()):
+        # the cells of fixed modules are the modules' own rectangles in a real run: fixed AND hard
+        for c in cells:
+            if c["fixed"] and c["region"] == "_":
+                c["hard"] = True
     return dict(unit=unit, cells=cells, form=form, touched=form == "api" and draw(st.booleans()))
 
 
 def cell_rect(c, unit):
     cx, cy, w, h = L.csr(c["r"], unit)
-    return Rectangle(center=Point(X.num(cx), X.num(cy)), shape=Shape(X.num(w), X.num(h)), region=c["region"], fixed=c["fixed"])
+    return Rectangle(center=Point(X.num(cx), X.num(cy)), shape=Shape(X.num(w), X.num(h)), region=c["region"], fixed=c["fixed"], hard=bool(c.get("hard")))
 
 
 def tree(case):
